@@ -52,13 +52,17 @@ class LoopSpec:
     def iteration(self, cx, lp):
         return []
 
+    def ghost_vars(self, cx):
+        """ghost state variables of this loop: name -> z3 sort (arrays); havocked with the other loop state"""
+        return {}
+
     def ghost_init(self, cx, lp):
-        """initial definition of ghost functions (assumed at loop entry; they must be fresh symbols)"""
-        return []
+        """name -> initial value, assigned before the loop"""
+        return {}
 
     def ghost_update(self, cx, lp):
-        """definitions of the ghost (history) functions at index lp.k, assumed at the end of iteration k"""
-        return []
+        """ghost code at the end of iteration lp.k: name -> new value (proper assignments, never assumptions)"""
+        return {}
 
 
 class CallCtx:
